@@ -449,7 +449,13 @@ class Path:
         if fc.cls is not None and not is_static:
             selfname = names[0]
             names = names[1:]
-            if is_classm:
+            if is_classm and selfname in fc.params:
+                # the class object is a parameter of the contract: any (sub)class, symbolic
+                cv = V(z3.Const(selfname, z3.IntSort()), fc.params[selfname])
+                self.assume(cv.t > 0, z3.Select(self.env.alloc, cv.t))
+                loc[selfname] = cv
+                self.selfname = selfname
+            elif is_classm:
                 loc[selfname] = V(z3.IntVal(-1), RefS(self.concrete))     # the class object itself
             else:
                 ssort = RefS(self.concrete)
@@ -2026,6 +2032,73 @@ class Path:
     def ev_Lambda(self, n, env):
         self.lambdas[id(n)] = n
         return V(n, FunS([], ANY, "lambda"))
+
+    def ev_DictComp(self, n, env):
+        """{k: e for k, v in M.items() if c}  (keys of a map: unique)   and   {k: e for k, ... in zip(K, ...)} (keys K[j], assumed
+        pairwise distinct only where the contract says so: later duplicates win, as in Python)"""
+        if len(n.generators) != 1:
+            raise Unsupported("nested dict comprehension")
+        g = n.generators[0]
+        it = g.iter
+        if isinstance(it, ast.Call) and isinstance(it.func, ast.Attribute) and it.func.attr == "items" and not it.args:
+            M = self.ev(it.func.value, env)
+            if isinstance(M.s, MapS) and isinstance(g.target, ast.Tuple) and len(g.target.elts) == 2 \
+                    and isinstance(n.key, ast.Name) and isinstance(g.target.elts[0], ast.Name) and n.key.id == g.target.elts[0].id:
+                kq = ops.qvar("kd")
+                kq = z3.Const(str(kq) + "k", z(M.s.k))
+                sub = Env(dict(env.locals), env.heap, env.alloc, True, env.old, env.result, env.yielded, dict(env.binders))
+                self.bind_target(g.target.elts[0], V(kq, M.s.k), sub)
+                self.bind_target(g.target.elts[1], V(z3.Select(map_val(M.t), kq), M.s.v), sub)
+                with PureGuard(self):
+                    conds = [ops.truthy(self.ev(c, sub)) for c in g.ifs]
+                    val = self.ev(n.value, sub)
+                so = MapS(M.s.k, val.s)
+                r = fresh("dcomp", so)
+                self.assume(z3.ForAll([kq], z3.Select(map_dom(r), kq) == z3.And(z3.Select(map_dom(M.t), kq), *conds),
+                                      patterns=[z3.Select(map_dom(r), kq)]),
+                            z3.ForAll([kq], z3.Implies(z3.Select(map_dom(r), kq), z3.Select(map_val(r), kq) == val.t),
+                                      patterns=[z3.Select(map_val(r), kq)]),
+                            map_size(r) >= 0, map_size(r) <= map_size(M.t),
+                            z3.Implies(z3.ForAll([kq], z3.Implies(z3.Select(map_dom(M.t), kq), z3.And(*conds)) if conds else z3.BoolVal(True)),
+                                       map_size(r) == map_size(M.t)))
+                return V(r, so)
+        if g.ifs:
+            raise Unsupported("filtered dict comprehension over a sequence")
+        # over a sequence of tuples: keys K[j]; value e[j]; result = fold of map_set in order (definitional, by a ghost position function)
+        j = ops.qvar("jd")
+        sub = Env(dict(env.locals), env.heap, env.alloc, True, env.old, env.result, env.yielded, dict(env.binders))
+        if isinstance(it, ast.Call) and isinstance(it.func, ast.Name) and it.func.id == "zip" and it.func.id not in env.locals:
+            # zip(A, B, ...): the j-th element written directly over the component sequences (so the axioms trigger on A[j], B[j], ...)
+            ins = [self.iter_seq(a, env, getattr(n, "lineno", 0)) for a in it.args]
+            es = TupS(*[x.s.elem for x in ins])
+            elem = V(tup_mk(es, *[seq_get(x.t, j) for x in ins]), es)
+            slen = seq_len(ins[0].t)
+            for x in ins[1:]:
+                slen = ite(seq_len(x.t) < slen, seq_len(x.t), slen)
+            pat0 = seq_get(ins[0].t, j)
+        else:
+            S = self.iter_seq(it, env, getattr(n, "lineno", 0))
+            elem, slen, pat0 = V(seq_get(S.t, j), S.s.elem), seq_len(S.t), seq_get(S.t, j)
+        self.bind_target(g.target, elem, sub)
+        with PureGuard(self):
+            key = self.ev(n.key, sub)
+            val = self.ev(n.value, sub)
+        key = V(z3.simplify(key.t), key.s)
+        val = V(z3.simplify(val.t), val.s)
+        so = MapS(key.s, val.s)
+        r = fresh("dcomp", so)
+        kq = z3.Const(str(ops.qvar("kd")) + "k", z(key.s))
+        last = z3.Function("dlast!%d" % ops._qcnt[0], z(key.s), z3.IntSort())     # position of the last pair with that key
+        rng = z3.And(0 <= j, j < slen)
+        self.assume(z3.ForAll([j], z3.Implies(rng, z3.And(z3.Select(map_dom(r), key.t), 0 <= last(key.t), last(key.t) < slen,
+                                                         last(key.t) >= j)), patterns=[pat0]),
+                    z3.ForAll([kq], z3.Implies(z3.Select(map_dom(r), kq),
+                                               z3.And(0 <= last(kq), last(kq) < slen,
+                                                      z3.substitute(key.t, (j, last(kq))) == kq,
+                                                      z3.Select(map_val(r), kq) == z3.substitute(val.t, (j, last(kq))))),
+                              patterns=[z3.Select(map_dom(r), kq)]),
+                    map_size(r) >= 0, map_size(r) <= slen)
+        return V(r, so)
 
     def ev_ListComp(self, n, env):
         return self.comprehension(n, env)
